@@ -87,6 +87,12 @@ impl Report {
     }
     /// register a case for the Coq-side comparison; returns its id
     pub fn coq_case(&mut self, kind: usize, term: String, desc: J) -> u64 {
+        if term.contains("QC_NONFINITE") {
+            // an exact run over finite rationals produced inf / NaN (a division by zero in the
+            // implementation): a failing input in its own right, not a Coq case
+            self.fail("exact run on finite rational inputs produced a non-finite value (division by zero)", desc);
+            return 0;
+        }
         let id = self.next_id;
         self.next_id += 1;
         self.kinds[kind].cases.push((id, term));
